@@ -473,14 +473,31 @@ class Ctx:
         if v is None:
             return z3.BoolVal(False)
         if isinstance(v, SRef):
-            if v.pytype in ('deque', 'list', 'dict', 'str', 'tuple', 'LockingDeque'):
+            bt = (v.pytype or '').split('<', 1)[0]
+            if bt in ('deque', 'list', 'dict', 'str', 'tuple', 'LockingDeque'):
                 raise Unsupported('truthiness of container %r' % (v,))
-            return v.e != NONE
+            if bt in ALWAYS_TRUE_TYPES or self._plain_object_type(bt):
+                return v.e != NONE
+            # an object whose class defines truth through __bool__/__len__ (Event is an OrderedDict: empty -> falsy),
+            # a namedtuple, or a value of unknown type (a payload may be 0, '' or []): not None, and otherwise unknown
+            return z3.And(v.e != NONE, truthy(v.e))
         if isinstance(v, str):
             return z3.BoolVal(len(v) > 0)
         if isinstance(v, (SFunc, SClass)):
             return z3.BoolVal(True)
         raise Unsupported('truthiness of %r' % (v,))
+
+    def _plain_object_type(self, pt):
+        src = self.world.src
+        if pt not in src.classes:
+            return False
+        for cn in src.mro(pt):
+            ci = src.classes.get(cn)
+            if ci is None or '__bool__' in ci.methods or '__len__' in ci.methods:
+                return False
+            if any(b not in src.classes and b != 'object' for b in ci.bases):
+                return False
+        return True
 
     def to_ref(self, v):
         if v is None:
@@ -710,6 +727,9 @@ def _ident(s):
     return ''.join(ch if ch.isalnum() else '_' for ch in s)[:24]
 
 
+truthy = z3.Function('truthy', Ref, z3.BoolSort())
+ALWAYS_TRUE_TYPES = {'state', 'fn', 'rawstate', 'Thread', 'ThreadEvent', 'RLock', 'Queue', 'PriorityQueue', 'Attribute',
+                     'class', 'datetime', 'uuid', 'code', 'frame', 'match', 'subq', 'pqheap'}
 box = z3.Function('box_int', z3.IntSort(), Ref)
 unbox = z3.Function('unbox_int', Ref, z3.IntSort())
 
